@@ -82,8 +82,7 @@ DATA = {'xA': [S1, E1], 'xB': [S2, S3, E3], 'xS': [1001, 5002, 301001], 'xM': [1
 
 def build_stream(hist, e1def):
     """-> (stream bytes, [(event, bytes, expectation)]) expectation: 'def' | ('ok', subsets) | ('unknown',)"""
-    B, D = tables.load(13)
-    B, D = dict(B), dict(D)
+    defs = []
     items = []
     for k, ev in enumerate(hist):
         if ev[0] == 'd':
@@ -92,10 +91,16 @@ def build_stream(hist, e1def):
                     m = ncep.build_definition(a, b, d, nsub=0)
                 else:
                     m = ncep.build_definition(a, b, d)
-                    B, D = ncep.apply_definitions(B, D, b, d)
+                    defs.append((b, d))
                 items.append((ev, m, 'def'))
             continue
         descs = DATA[ev]
+        # the definitions extend EVERY table group: data messages name master version 13 or 33 by position
+        version = 13 if k % 2 == 0 else 33
+        B, D = tables.load(version)
+        B, D = dict(B), dict(D)
+        for b_, d_ in defs:
+            B, D = ncep.apply_definitions(B, D, b_, d_)
         cnt = [0]
 
         def ch(info):
@@ -122,7 +127,7 @@ def build_stream(hist, e1def):
             cnt[0] = 0
             buf, subs, notes, nb = codec.encode(Bp, Dp, descs, 1, False, ch)
             exp = ('unknown',)
-        items.append((ev, message.build(ncep.data_spec(descs), buf)[0], exp))
+        items.append((ev, message.build(ncep.data_spec(descs, master_version=version), buf)[0], exp))
     return b''.join(m for ev, m, exp in items), items
 
 
